@@ -264,8 +264,10 @@ func c15RecomputeRest(p *Prog, r *Report) {
 				k := c.Key()
 				return c.Kind != "not" && !strings.HasPrefix(k, "!") && strings.Contains(k, "GlobalVarsMain.FKA") && strings.Contains(k, "> 0")
 			})
-			okTable = a0.Equal(stripVersions(cellP("GlobalVarsMain.WP", idx))) && a1.Equal(stripVersions(cellP("GlobalVarsMain.FKA", idx))) && first && expl
-			det += fmt.Sprintf("table arm: calcWRed(%s, %s) for the first horizon (%v) with explicit values (%v); ", a0, a1, first, expl)
+			// after the table routine of the same horizon (which sets the threshold from the table texture as a side effect)
+			after := hydro != nil && e.Seq > hydro.Seq
+			okTable = a0.Equal(stripVersions(cellP("GlobalVarsMain.WP", idx))) && a1.Equal(stripVersions(cellP("GlobalVarsMain.FKA", idx))) && first && expl && after
+			det += fmt.Sprintf("table arm: calcWRed(%s, %s) for the first horizon (%v) with explicit values (%v), after the table routine has run for that horizon (%v); ", a0, a1, first, expl, after)
 		} else {
 			want0 := cellP("GlobalVarsMain.WMIN", PInt(0)).Scale(ratInt(100))
 			want1 := cellP("GlobalVarsMain.W", PInt(0)).Scale(ratInt(100))
